@@ -54,6 +54,14 @@ def body_lines(m, is_method=False):
         return [f"return ('r', {mid}, recurse({altl})) if __vf.rec_ok() else ('m', {mid})"]
     if kind == "nextalt":
         return [f"return ('n', {mid}, call_next({altl})) if __vf.rec_ok() else ('m', {mid})"]
+    if kind == "recnest":
+        # a rewritten call nested inside the argument list of another one, on one line (entry monitors only)
+        if nalt >= 2:
+            inner = "recurse(" + ", ".join(f"__vf.alt[{(i + 1) % nalt}]" for i in range(nalt)) + ")"
+            outer = ", ".join([f"__vf.alt[{i}]" for i in range(nalt - 1)] + [inner])
+        else:
+            inner, outer = "recurse(__vf.alt[0])", "recurse(__vf.alt[0])"
+        return [f"return ('r', {mid}, recurse({outer})) if __vf.rec_ok() else ('m', {mid})"]
     raise ValueError(kind)
 
 
